@@ -35,8 +35,8 @@ CHECKS = {
                       "Generated multi-producer programs over schedule / schedule(FQ) / scheduleBulk (external and in-pool producers, pools of 0-6 threads, wake and poll mode) under generated interleavings; ledger oracle: after ~ThreadPool returns every submitted functor ran exactly once and none starts later. Second part: the task-set programs of C02 (TaskSet / ConcurrentTaskSet single, bulk and force-queued submissions reach the pool through its ring-bulk and placed-scheduling entry points, which the plain pool API does not exercise) under the same ledger; a functor the pool loses there shows as a wait() that never returns (explorer livelock report) or as a ledger miss.",
                       [e1("pool", "prog"), dict(harness="pool", variant="dsched", part="prog", prop="C02", quick=1500, thorough=60000)], "§4 C01"),
     "C02": pool_check("Task-set wait is a completion barrier",
-                      "Programs with TaskSet / ConcurrentTaskSet (light, heavy), single/bulk/FQ submissions, shared sets, nested sets and parallel_for; at the return of every wait(), tryWait()==true and destructor all tasks submitted before have finished, each body ran once.",
-                      [e1("pool", "prog"), e1("pool", "forkjoin")], "§4 C02"),
+                      "Programs with TaskSet / ConcurrentTaskSet (light, heavy), single/bulk/FQ submissions, shared sets, nested sets and parallel_for; at the return of every wait(), tryWait()==true and destructor all tasks submitted before have finished, each body ran once. Third part: continuations registered on a set with Future::then(f, set) while their antecedent runs outside the set (C19's then-chain programs with the set's wait() placed before the final get()): wait() returns only when they have finished.",
+                      [e1("pool", "prog"), e1("pool", "forkjoin"), dict(harness="future", variant="dsched", part="then", prop="C19", quick=3000, thorough=100000)], "§4 C02"),
     "C03": pool_check("Pool resize never loses, duplicates or strands work",
                       "C02-style programs with a concurrent resizer thread (grow, shrink, zero); ledger + barrier + termination oracle (explorer deadlock report, fair-schedule livelock confirmation).",
                       [e1("pool", "prog")], "§4 C03"),
